@@ -80,6 +80,12 @@ def loaded_scenarios(ctx, out):
                 objs = [o for r in r1.contents for o in [r] + list(r.eAllContents())]
 
                 def verdict():
+                    for q in objs:
+                        for x in list(q.kids) + ([q.one] if q.one is not None else []):
+                            if x.eContainer() is not q:
+                                cx = x.eContainer()
+                                return 'slot-without-container', (f'{q.name} holds {x.name} in a containment slot but {x.name}.eContainer() is '
+                                                                  f'{cx.name if cx is not None else None}')
                     for o in objs:
                         listed = [r for r in (r1, r2) for x in r.contents if x is o]
                         c = o.eContainer()
@@ -104,7 +110,7 @@ def loaded_scenarios(ctx, out):
                     if bad:
                         break
                     o = rng.choice(objs)
-                    k = rng.choice(['to-other', 'to-first', 'contain', 'release', 'rremove'])
+                    k = rng.choice(['to-other', 'to-first', 'contain', 'release', 'rremove', 'copy-edit', 'delslice', 'delslice'])
                     try:
                         if k == 'to-other':
                             r2.append(o)
@@ -131,6 +137,31 @@ def loaded_scenarios(ctx, out):
                                 c.one = None
                             else:
                                 c.kids.remove(o)
+                        elif k == 'copy-edit':
+                            # a COPY of a containment collection (copy() / the full slice) is a detached value: editing it
+                            # changes nobody's ownership
+                            cp = o.kids.copy() if rng.random() < 0.5 else o.kids[:]
+                            other = rng.choice(objs)
+                            try:
+                                if len(cp) and rng.random() < 0.5:
+                                    cp.pop() if rng.random() < 0.5 else cp.remove(list(cp)[0])
+                                elif hasattr(cp, 'append'):
+                                    cp.append(other)
+                                else:
+                                    cp.add(other)
+                            except Exception:  # noqa
+                                pass
+                        elif k == 'delslice':
+                            # removal by slice: either refused with nothing changed, or the children are released
+                            big = [q for q in objs if len(q.kids) >= 2]
+                            o = rng.choice(big) if big else o
+                            try:
+                                if rng.random() < 0.5:
+                                    del o.kids[1:3]
+                                else:
+                                    del o.kids[0:1]
+                            except Exception:  # noqa
+                                pass
                         elif k == 'rremove':
                             rr = o.eResource
                             if rr is None or not any(x is o for x in rr.contents):
